@@ -343,6 +343,7 @@ pub fn run(ctx: &Ctx) -> Coverage {
     let mut cov = Coverage::aggregate();
     cov.absorb("a-h1-h1", run_a(ctx));
     cov.absorb("b-http2-pairs", super::c02b::run(ctx));
+    cov.absorb("c-pipelined-requests", super::c02c::run(ctx));
     cov
 }
 
@@ -356,6 +357,9 @@ fn run_a(ctx: &Ctx) -> Coverage {
 pub fn replay(ctx: &Ctx, case: &Value) -> Coverage {
     if case["sim"] == "c02b" {
         return super::c02b::replay(ctx, case);
+    }
+    if case["sim"] == "c02c" {
+        return super::c02c::replay(ctx, case);
     }
     let c: Case = serde_json::from_value(case["case"].clone()).unwrap_or_else(|e| crate::common::machinery_error(&format!("bad replay case: {e}")));
     let choices: Vec<u32> = serde_json::from_value(case["choices"].clone()).unwrap_or_default();
